@@ -2,6 +2,7 @@ package props
 
 import (
 	"bufio"
+	"bytes"
 	"encoding/binary"
 	"encoding/json"
 	"errors"
@@ -395,6 +396,92 @@ func c13Scenarios(c *fw.Ctx) []*Scenario {
 		}
 		return []func(){writer, reader}, judge
 	}}
+	// S8: a writing COMMAND is one session.  sum-copy (read destination, compare with the sum, write what differs, Sync)
+	// runs next to a library session that changes one slot of the destination; whatever the interleaving, the file must
+	// end as one of the two serial orders leaves it.
+	var s8Serial [2][]byte
+	cmdWriter := &Scenario{Name: "S8-sum-copy-vs-writer", Bound: 2, Make: func() ([]func(), func(*vrt.Sched) (string, string, string)) {
+		vrt.SetPagesize(4096)
+		ld := LayoutByTag("L4")
+		l4 := wsp.Layout{Archs: ld.Archs, Method: 2, XFF: 0}
+		now := int64(c13Now | 1) // odd: the two newest finest slots share one coarser slot
+		root := filepath.Join(c.Dir, "c13s8")
+		spath, dpath := filepath.Join(root, "s", "it", "x", "a.wsp"), filepath.Join(root, "d", "it", "x", "sum.wsp")
+		prepare := func() {
+			os.RemoveAll(root)
+			src, dst := EmptyRings(l4), EmptyRings(l4)
+			put := func(r []wsp.Ring, a int, t int64, v float64) {
+				st := int64(l4.Archs[a].Step)
+				t -= t % st
+				r[a][uint32(t/st)%l4.Archs[a].N] = wsp.Slot{T: uint32(t), V: v}
+			}
+			put(src, 0, now-1, 1) // P: equal on both sides
+			put(src, 0, now, 1)   // Q: missing in the destination
+			put(src, 1, now, 60)  // the coarser slot over P and Q: not their aggregate, equal on both sides
+			put(dst, 0, now-1, 1)
+			put(dst, 1, now, 60)
+			(&BFile{L: l4, Rings: src}).Write(spath)
+			(&BFile{L: l4, Rings: dst}).Write(dpath)
+		}
+		var errs []string
+		addErr := func(e string) { hmu.Lock(); errs = append(errs, e); hmu.Unlock() }
+		command := func() {
+			cmd := &wcmd.SumCopyCommand{SrcBase: filepath.Join(root, "s"), DestBase: filepath.Join(root, "d"), ItemPattern: "it/*", SrcPattern: "*.wsp", DestRelPath: "sum.wsp",
+				AggregationMethod: wt.Sum, ArchiveInfoList: archList(l4.Archs), ArchiveID: -1, TextOut: ""}
+			if err, pn := RunCommand(now, cmd); err != nil || pn != "" {
+				addErr(fmt.Sprint("sum-copy: ", err, firstLine(pn)))
+			}
+		}
+		writer := func() {
+			db, err := wt.Open(dpath)
+			if err != nil {
+				addErr(err.Error())
+				return
+			}
+			defer db.Close()
+			db.UpdatePointForArchive(0, wt.Timestamp(now-1), 5, wt.Timestamp(now))
+			if err := db.Sync(); err != nil {
+				addErr(err.Error())
+			}
+		}
+		if s8Serial[0] == nil { // the two serial orders, no scheduler installed
+			prepare()
+			command()
+			writer()
+			s8Serial[0], _ = os.ReadFile(dpath)
+			prepare()
+			writer()
+			command()
+			s8Serial[1], _ = os.ReadFile(dpath)
+			errs = nil
+		}
+		prepare()
+		judge := func(s *vrt.Sched) (string, string, string) {
+			if s.Deadlock || len(s.Panics) > 0 || s.Diverged != "" {
+				return "", "", "aborted"
+			}
+			if len(errs) > 0 {
+				return "C13/S8/session-failed", errs[0], "error"
+			}
+			got, _ := os.ReadFile(dpath)
+			for i, ser := range s8Serial {
+				if bytes.Equal(got, ser) {
+					return "", "", fmt.Sprint("serial-order-", i)
+				}
+			}
+			show := func(b []byte) string {
+				f, err := wsp.Parse(b)
+				if err != nil {
+					return err.Error()
+				}
+				r, _ := f.Rings()
+				e, _ := ExpRead(l4, r, -1, 0, now, now)
+				return fmt.Sprint(e[0].Vals, e[1].Vals)
+			}
+			return "C13/S8/not-serializable", fmt.Sprintf("sum-copy next to a session writing one slot of its destination: the file ends as %s; sum-copy first gives %s, the writer first gives %s", show(got), show(s8Serial[0]), show(s8Serial[1])), "neither"
+		}
+		return []func(){command, writer}, judge
+	}}
 	b2, b3 := -1, 2 // two-thread scenarios: every interleaving; three threads: preemption bound
 	if c.Thorough() {
 		b2, b3 = -1, -1 // every interleaving, also for three threads
@@ -410,6 +497,7 @@ func c13Scenarios(c *fw.Ctx) []*Scenario {
 		lifetime,
 		creator,
 		cmdReader,
+		cmdWriter,
 	}
 }
 
